@@ -344,6 +344,9 @@ def register(OPS, drv):
                     try:
                         v = VFSZip(w.config, real, "/" + ARC + ".zip")
                         r = {"results": [vfs_call(v, op, s) for op, s in a["calls"]]}
+                        if a.get("with_chain"):
+                            # what the file system the archive lives in answers to the same calls
+                            r["chain"] = [vfs_call(real, op, s) for op, s in a["calls"]]
                     except Exception as e:
                         r = {"exc": type(e).__name__}
                 elif k == "vfs_real":
